@@ -1,6 +1,532 @@
-/- C08 - property theorems (stub: not built yet) -/
-import NotationModel.Model.C08
+/-
+C08 - The policy statement applied is the one scoped to the artifact's repository.
+Property theorems only; the model is in `Model/C08.lean`, helper lemmas in `Lemmas/C08.lean`.
+
+Hypotheses. Document validation is property C09. What selection needs from a valid document
+is stated here as explicit decidable hypotheses:
+  `scopesUnique d` - no scope string occurs twice in the whole document, and a statement that
+                     carries the wildcard "*" carries nothing else (hence at most one does);
+  `namesUnique d`  - statement names are pairwise different;
+  `oneGlobal d`    - at most one blob statement is global.
+`validateRegistryScopes` / `Validate` enforce exactly these. The correspondence harness emits
+only documents the real `Validate()` accepts, so the hypotheses (`WF`) hold of every generated
+input by construction.
+-/
+import NotationModel.Lemmas.C08
+set_option linter.unusedSimpArgs false
+set_option linter.unusedVariables false
 
 namespace NotationModel.C08
+
+/-! ### ties to the source text -/
+
+/-- the model's regex syntax trees print to exactly the regex texts in
+`validateRegistryScopeFormat`; the wildcard is "*"; the reference is cut at the LAST '@'; a scope
+is cut at the first '/' -/
+theorem source_ties :
+    regexText domainRx = Facts.c08DomainRegexp ∧
+    regexText repositoryRx = Facts.c08RepositoryRegexp ∧
+    Facts.c08Wildcard = ['*'] ∧
+    Facts.c08ScopeCut = "strings.Cut(_,\"/\")" ∧
+    Facts.c08RefSplit = ["strings.LastIndex(_,\"@\")"] := by
+  decide
+
+/-- **the clone obligation**: in the current source every reference-typed field of a handed-out
+statement (the three slices, the Override map) is freshly allocated and every value field is
+copied from the same field. A `clone` that shares a slice or the map, or drops a field, changes
+the extracted facts and this proof no longer checks. -/
+theorem clone_is_fresh :
+    CloneFresh Facts.ociCloneFields Facts.sigVerificationCloneMakesMap false = true ∧
+    CloneFresh Facts.blobCloneFields Facts.sigVerificationCloneMakesMap true = true := by
+  decide
+
+theorem currentFacts_fresh : currentFacts.fresh = true := by decide
+
+/-! ### OCI selection -/
+
+/-- **select_unique.** For a document with unique scopes and a reference whose repository path is
+`path`: a statement listing exactly `path` is THE result (so there is only one such statement);
+if none lists it, a statement carrying the wildcard is THE result; if there is neither, the
+result is the no-applicable-policy error. -/
+theorem select_unique (d : List Stmt) (hu : scopesUnique d = true) (ref path : Text)
+    (hp : artifactPath ref = some path) :
+    (∀ s ∈ d, path ∈ s.scopes → selectOCI d ref = .ok s) ∧
+    ((∀ s ∈ d, path ∉ s.scopes) → ∀ w ∈ d, wildcard ∈ w.scopes → selectOCI d ref = .ok w) ∧
+    ((∀ s ∈ d, path ∉ s.scopes ∧ wildcard ∉ s.scopes) → selectOCI d ref = .error .noApplicablePolicy) := by
+  have hne := artifactPath_ne_wildcard ref path hp
+  rw [selectOCI_some d ref path hp]
+  have hE : ∀ s ∈ d, isE path s = s.scopes.contains path := isE_eq_contains d hu path hne
+  refine ⟨?_, ?_, ?_⟩
+  · intro s hs hps
+    have hc : s.scopes.contains path = true := List.contains_iff_mem.2 hps
+    have : lastMatch (isE path) d none = some s := by
+      apply lastMatch_unique (isE path) d none s hs (by rw [hE s hs]; exact hc)
+      intro t ht hpt
+      rw [hE t ht] at hpt
+      exact filter_le_one_unique _ d (scopesUnique_filter d hu path) t s ht hs hpt hc
+    rw [this]
+  · intro hno w hw hww
+    have hnoE : ∀ s ∈ d, isE path s = false := by
+      intro s hs
+      rw [hE s hs]
+      exact Bool.eq_false_iff.2 (fun hc => hno s hs (List.contains_iff_mem.1 hc))
+    have hc : w.scopes.contains wildcard = true := List.contains_iff_mem.2 hww
+    have : lastMatch isW d none = some w := by
+      apply lastMatch_unique isW d none w hw hc
+      intro t ht hpt
+      exact filter_le_one_unique _ d (scopesUnique_filter d hu wildcard) t w ht hw hpt hc
+    rw [lastMatch_none _ _ _ hnoE, this]
+  · intro hno
+    have hnoE : ∀ s ∈ d, isE path s = false := by
+      intro s hs
+      rw [hE s hs]
+      exact Bool.eq_false_iff.2 (fun hc => (hno s hs).1 (List.contains_iff_mem.1 hc))
+    have hnoW : ∀ s ∈ d, isW s = false := by
+      intro s hs
+      exact Bool.eq_false_iff.2 (fun hc => (hno s hs).2 (List.contains_iff_mem.1 hc))
+    rw [lastMatch_none _ _ _ hnoE, lastMatch_none _ _ _ hnoW]
+
+/-- in a valid document at most one statement lists a given repository path, and at most one
+carries the wildcard -/
+theorem scoped_statement_unique (d : List Stmt) (hu : scopesUnique d = true) (x : Text)
+    (s t : Stmt) (hs : s ∈ d) (ht : t ∈ d) (hxs : x ∈ s.scopes) (hxt : x ∈ t.scopes) : s = t :=
+  filter_le_one_unique _ d (scopesUnique_filter d hu x) s t hs ht
+    (List.contains_iff_mem.2 hxs) (List.contains_iff_mem.2 hxt)
+
+theorem scopesUnique_perm (d d' : List Stmt) (hperm : d.Perm d') (hu : scopesUnique d = true) :
+    scopesUnique d' = true := by
+  simp only [scopesUnique, Bool.and_eq_true, decide_eq_true_eq, List.all_eq_true] at hu ⊢
+  refine ⟨(List.Perm.nodup_iff (List.Perm.flatMap_right _ hperm)).1 hu.1, ?_⟩
+  intro s hs
+  exact hu.2 s (hperm.mem_iff.2 hs)
+
+/-- **select_perm.** The order of the statements does not matter: any permutation of a valid
+document selects the same statement (or refuses in the same way) for every reference. -/
+theorem select_perm (d d' : List Stmt) (hperm : d.Perm d') (hu : scopesUnique d = true) (ref : Text) :
+    selectOCI d ref = selectOCI d' ref := by
+  have hu' := scopesUnique_perm d d' hperm hu
+  cases hp : artifactPath ref with
+  | none => simp only [selectOCI, hp]
+  | some path =>
+    have h1 := select_unique d hu ref path hp
+    have h2 := select_unique d' hu' ref path hp
+    by_cases hex : ∃ s ∈ d, path ∈ s.scopes
+    · obtain ⟨s, hs, hps⟩ := hex
+      rw [h1.1 s hs hps, h2.1 s (hperm.mem_iff.1 hs) hps]
+    · have hno : ∀ s ∈ d, path ∉ s.scopes := fun s hs hps => hex ⟨s, hs, hps⟩
+      have hno' : ∀ s ∈ d', path ∉ s.scopes := fun s hs => hno s (hperm.mem_iff.2 hs)
+      by_cases hw : ∃ w ∈ d, wildcard ∈ w.scopes
+      · obtain ⟨w, hw, hww⟩ := hw
+        rw [h1.2.1 hno w hw hww, h2.2.1 hno' w (hperm.mem_iff.1 hw) hww]
+      · have hnw : ∀ s ∈ d, path ∉ s.scopes ∧ wildcard ∉ s.scopes :=
+          fun s hs => ⟨hno s hs, fun hww => hw ⟨s, hs, hww⟩⟩
+        have hnw' : ∀ s ∈ d', path ∉ s.scopes ∧ wildcard ∉ s.scopes :=
+          fun s hs => hnw s (hperm.mem_iff.2 hs)
+        rw [h1.2.2 hnw, h2.2.2 hnw']
+
+/-- **select_exact.** Membership is equality of the whole string: whatever the document (valid or
+not), a selected statement is a statement of the document that lists the repository path itself
+or carries the wildcard, and the wildcard statement is only selected when no statement without
+the wildcard lists the path. A scope that is merely a prefix, an extension, a substring or a case
+variant of the path (or the path with a tag) is a different `List Char` and never matches. -/
+theorem select_exact (d : List Stmt) (ref path : Text) (s : Stmt)
+    (hp : artifactPath ref = some path) (hs : selectOCI d ref = .ok s) :
+    s ∈ d ∧ (path ∈ s.scopes ∨ wildcard ∈ s.scopes) ∧
+    (path ∉ s.scopes → ∀ t ∈ d, wildcard ∉ t.scopes → path ∉ t.scopes) := by
+  refine ⟨selectOCI_mem d ref s hs, ?_⟩
+  rw [selectOCI_some d ref path hp] at hs
+  cases h1 : lastMatch (isE path) d none with
+  | some a =>
+    simp only [h1] at hs
+    injection hs with hs
+    subst hs
+    rcases lastMatch_sound _ _ _ _ h1 with ⟨_, hpa⟩ | h0
+    · simp only [isE, Bool.and_eq_true] at hpa
+      have hm : path ∈ a.scopes := List.contains_iff_mem.1 hpa.2
+      exact ⟨Or.inl hm, fun hn => absurd hm hn⟩
+    · cases h0
+  | none =>
+    cases h2 : lastMatch isW d none with
+    | some w =>
+      simp only [h1, h2] at hs
+      injection hs with hs
+      subst hs
+      rcases lastMatch_sound _ _ _ _ h2 with ⟨_, hpw⟩ | h0
+      · refine ⟨Or.inr (List.contains_iff_mem.1 hpw), ?_⟩
+        intro _ t ht hnw hpt
+        have hEt : isE path t = true := by
+          simp only [isE, Bool.and_eq_true, Bool.not_eq_true']
+          exact ⟨Bool.eq_false_iff.2 (fun hc => hnw (List.contains_iff_mem.1 hc)), List.contains_iff_mem.2 hpt⟩
+        by_cases hr : ∃ u ∈ d, isE path u = true
+        · obtain ⟨y, _, _, hy⟩ := lastMatch_some (isE path) d none hr
+          rw [h1] at hy; cases hy
+        · exact hr ⟨t, ht, hEt⟩
+      · cases h0
+    | none => simp [h1, h2] at hs
+
+/-- a reference without '@' (tag only, or nothing after the repository) is refused, and a path
+that is not "registry/repository" in the distribution grammar (a tag after the repository, an
+upper-case repository, a missing repository, a wildcard) is refused: examples, evaluated by the
+kernel on the model's regex matcher -/
+theorem malformed_references_are_refused :
+    artifactPath "registry.example/app:v1".toList = none ∧
+    artifactPath "registry.example/app".toList = none ∧
+    artifactPath "registry.example/app:v1@sha256:00".toList = none ∧
+    artifactPath "registry.example/APP@sha256:00".toList = none ∧
+    artifactPath "registry.example/@sha256:00".toList = none ∧
+    artifactPath "@sha256:00".toList = none ∧
+    artifactPath "*@sha256:00".toList = none ∧
+    artifactPath "registry.example/app@sha256:00".toList = some "registry.example/app".toList ∧
+    artifactPath "registry.example:5000/app/sub@sha256:00".toList = some "registry.example:5000/app/sub".toList := by
+  decide
+
+/-! ### blob selection -/
+
+/-- **blob_by_name.** In a document with unique names the statement whose name IS the requested
+(non-blank) name is the result; if there is none, or the name is blank, the request is refused.
+The comparison is equality of the whole name. -/
+theorem blob_by_name (d : List Stmt) (hu : namesUnique d = true) (name : Text) :
+    (isBlank name = false → ∀ s ∈ d, s.name = name → selectBlob d name = .ok s) ∧
+    (isBlank name = false → (∀ s ∈ d, s.name ≠ name) → selectBlob d name = .error .noApplicablePolicy) ∧
+    (isBlank name = true → selectBlob d name = .error .emptyName) ∧
+    (∀ s, selectBlob d name = .ok s → s ∈ d ∧ s.name = name) := by
+  refine ⟨?_, ?_, ?_, ?_⟩
+  · intro hb s hs hn
+    have hps : (s.name == name) = true := by rw [hn]; exact beq_self_eq_true name
+    have : d.filter (fun s => s.name == name) = [s] := by
+      rcases le_one_cases _ (namesUnique_filter d hu name) with hf | ⟨x, hf⟩
+      · have : s ∈ d.filter (fun s => s.name == name) := List.mem_filter.2 ⟨hs, hps⟩
+        rw [hf] at this; cases this
+      · have : s ∈ d.filter (fun s => s.name == name) := List.mem_filter.2 ⟨hs, hps⟩
+        rw [hf] at this
+        rw [hf, List.mem_singleton.1 this]
+    simp only [selectBlob, hb, find?_of_filter_single _ _ s this, Bool.false_eq_true, ↓reduceIte]
+  · intro hb hno
+    have : d.find? (fun s => s.name == name) = none := by
+      apply List.find?_eq_none.2
+      intro s hs hc
+      exact hno s hs (eq_of_beq hc)
+    simp only [selectBlob, hb, this, Bool.false_eq_true, ↓reduceIte]
+  · intro hb
+    simp only [selectBlob, hb, ↓reduceIte]
+  · intro s hs
+    refine ⟨selectBlob_mem d name s hs, ?_⟩
+    unfold selectBlob at hs
+    split at hs
+    · cases hs
+    · split at hs
+      · rename_i hf
+        cases hs
+        have := List.find?_some hf
+        exact eq_of_beq this
+      · cases hs
+
+/-- **global_unique.** With at most one global statement, the global statement is the result of
+`GetGlobalTrustPolicy`; without one the request is refused. -/
+theorem global_unique (d : List Stmt) (hu : oneGlobal d = true) :
+    (∀ g ∈ d, g.isGlobal = true → selectGlobal d = .ok g) ∧
+    ((∀ s ∈ d, s.isGlobal = false) → selectGlobal d = .error .noApplicablePolicy) ∧
+    (∀ s, selectGlobal d = .ok s → s ∈ d ∧ s.isGlobal = true) := by
+  have hle : (d.filter (fun s => s.isGlobal)).length ≤ 1 := by simpa [oneGlobal] using hu
+  refine ⟨?_, ?_, ?_⟩
+  · intro g hg hgg
+    have hm : g ∈ d.filter (fun s => s.isGlobal) := List.mem_filter.2 ⟨hg, hgg⟩
+    have : d.filter (fun s => s.isGlobal) = [g] := by
+      rcases le_one_cases _ hle with hf | ⟨x, hf⟩
+      · rw [hf] at hm; cases hm
+      · rw [hf] at hm; rw [hf, List.mem_singleton.1 hm]
+    simp only [selectGlobal, find?_of_filter_single _ _ g this]
+  · intro hno
+    have : d.find? (fun s => s.isGlobal) = none := by
+      apply List.find?_eq_none.2
+      intro s hs hc
+      rw [hno s hs] at hc; cases hc
+    simp only [selectGlobal, this]
+  · intro s hs
+    refine ⟨selectGlobal_mem d s hs, ?_⟩
+    unfold selectGlobal at hs
+    split at hs
+    · rename_i hf
+      cases hs
+      exact List.find?_some hf
+    · cases hs
+
+/-- the blob selections do not depend on statement order either -/
+theorem blob_perm (d d' : List Stmt) (hperm : d.Perm d') (hn : namesUnique d = true) (hg : oneGlobal d = true)
+    (name : Text) :
+    nameOf (selectBlob d name) = nameOf (selectBlob d' name) ∧
+    nameOf (selectGlobal d) = nameOf (selectGlobal d') := by
+  have hn' : namesUnique d' = true := by
+    simp only [namesUnique, decide_eq_true_eq] at hn ⊢
+    exact (List.Perm.nodup_iff (hperm.map _)).1 hn
+  have hg' : oneGlobal d' = true := by
+    simp only [oneGlobal, decide_eq_true_eq] at hg ⊢
+    rw [← (hperm.filter _).length_eq]; exact hg
+  rw [nameOf_selectBlob d hn, nameOf_selectBlob d' hn', nameOf_selectGlobal d hg, nameOf_selectGlobal d' hg']
+  have hlen1 := namesUnique_filter d hn name
+  have hp1 := hperm.filter (fun s => s.name == name)
+  have hlenG : (d.filter (fun s => s.isGlobal)).length ≤ 1 := by simpa [oneGlobal] using hg
+  have hpG := hperm.filter (fun s => s.isGlobal)
+  have key : ∀ (l l' : List Stmt), l.Perm l' → l.length ≤ 1 → l = l' := by
+    intro l l' hp hl
+    rcases le_one_cases l hl with h | ⟨x, h⟩
+    · subst h; exact (List.Perm.nil_eq hp)
+    · subst h; exact List.singleton_perm.1 hp
+  constructor
+  · unfold expectedBlob
+    rw [key _ _ hp1 hlen1]
+  · unfold expectedGlobal
+    rw [key _ _ hpG hlenG]
+
+/-! ### the handed-out statement is a private copy -/
+
+/-- **copy_is_private** (for any clone facts that are all fresh). Start from a document `d`,
+let callers do anything, in any order and any number of times: select (receiving a new copy each
+time) and write arbitrary contents into any slice field, the Override map or the scalar fields of
+any copy they hold. Afterwards the verifier's document is still `d`; hence every later selection
+returns what it returns on the original document, and the contents read through the newly
+handed-out copy are exactly the original statement. -/
+theorem copy_is_private_of (F : CloneFacts) (hF : F.fresh = true) (d : List Stmt) (ops : List Op) (q : Query) :
+    let st := exec F { doc := d, handles := [] } ops
+    st.doc = d ∧ selectQ st.doc q = selectQ d q ∧
+    ∀ s, selectQ st.doc q = .ok s → s ∈ d ∧ (clone F q.isBlob s).read (step F st (.select q)).doc = s := by
+  have h0 : Inv { doc := d, handles := [] } := by intro c hc; cases hc
+  have h := exec_fresh F hF ops _ h0
+  refine ⟨h.1, by rw [h.1], ?_⟩
+  intro s hs
+  rw [h.1] at hs
+  exact ⟨selectQ_mem d q s hs, (clone_fresh F hF q.isBlob s _).2⟩
+
+/-- **copy_is_private** for the clone functions of the current source tree; rests on the
+obligation `currentFacts_fresh` / `clone_is_fresh` (`by decide` over the extracted facts). -/
+theorem copy_is_private (d : List Stmt) (ops : List Op) (q : Query) :
+    let st := exec currentFacts { doc := d, handles := [] } ops
+    st.doc = d ∧ selectQ st.doc q = selectQ d q ∧
+    ∀ s, selectQ st.doc q = .ok s → s ∈ d ∧ (clone currentFacts q.isBlob s).read (step currentFacts st (.select q)).doc = s :=
+  copy_is_private_of currentFacts currentFacts_fresh d ops q
+
+/-! ### how a refusal surfaces from the verifier -/
+
+theorem stmtTag_ne_noPolicy (n : Text) : stmtTag n ≠ noPolicy := by
+  intro h
+  have := congrArg List.head? h
+  have h1 : (stmtTag n).head? = some 's' := by
+    have : "stmt:".toList = ['s', 't', 'm', 't', ':'] := by decide
+    simp [stmtTag, this]
+  have h2 : noPolicy.head? = some 'n' := by decide
+  rw [h1, h2] at this
+  exact absurd this (by decide)
+
+/-- **no_policy_is_typed_error.** Through `Verify` / `SkipVerify` / `VerifyBlob` every failed
+selection (malformed reference, nothing applicable, blank name) is reported as the
+no-applicable-policy class - and only a failed selection is: a successful one is reported as the
+selected statement, which is never confused with the error class. -/
+theorem no_policy_is_typed_error (d : List Stmt) (q : Query) :
+    (classOf (selectQ d q) = noPolicy ↔ ∃ e, selectQ d q = .error e) ∧
+    (∀ s, selectQ d q = .ok s → classOf (selectQ d q) = stmtTag s.name) := by
+  cases h : selectQ d q with
+  | error e => exact ⟨⟨fun _ => ⟨e, rfl⟩, fun _ => rfl⟩, fun s hs => by cases hs⟩
+  | ok s =>
+    refine ⟨⟨fun hc => absurd hc (stmtTag_ne_noPolicy s.name), fun ⟨e, he⟩ => by cases he⟩, ?_⟩
+    intro s' hs'
+    cases hs'
+    rfl
+
+/-- for a well-formed reference and a valid document the OCI refusal happens exactly when no
+statement lists the path and none carries the wildcard -/
+theorem refused_iff_nothing_applies (d : List Stmt) (hu : scopesUnique d = true) (ref path : Text)
+    (hp : artifactPath ref = some path) :
+    classOf (selectOCI d ref) = noPolicy ↔ ∀ s ∈ d, path ∉ s.scopes ∧ wildcard ∉ s.scopes := by
+  have hsel := select_unique d hu ref path hp
+  constructor
+  · intro hc s hs
+    constructor
+    · intro hps
+      rw [hsel.1 s hs hps] at hc
+      exact stmtTag_ne_noPolicy _ hc
+    · intro hws
+      by_cases hex : ∃ t ∈ d, path ∈ t.scopes
+      · obtain ⟨t, ht, hpt⟩ := hex
+        rw [hsel.1 t ht hpt] at hc
+        exact stmtTag_ne_noPolicy _ hc
+      · rw [hsel.2.1 (fun t ht hpt => hex ⟨t, ht, hpt⟩) s hs hws] at hc
+        exact stmtTag_ne_noPolicy _ hc
+  · intro hno
+    rw [hsel.2.2 hno]
+    rfl
+
+/-! ### the whole property -/
+
+theorem nameOf_selectQ (i : Input) (h : WF i = true) (t : Text) :
+    nameOf (selectQ i.stmts (mkQuery i.kind t)) = expected i t := by
+  unfold WF at h
+  unfold expected mkQuery
+  cases hk : i.kind with
+  | oci =>
+    simp only [hk, Bool.and_eq_true] at h
+    exact nameOf_selectOCI i.stmts h.1 t
+  | blob =>
+    simp only [hk, Bool.and_eq_true] at h
+    exact nameOf_selectBlob i.stmts h.1 t
+
+/-- **C08, the whole property**: for every input satisfying `WF` (what document validation
+guarantees; the generator only emits such inputs) every clause of `Holds` is true of the
+model's behaviour under the clone facts of the current source tree. -/
+theorem model_holds (i : Input) (h : WF i = true) : Holds i (run i) = true := by
+  unfold Holds clauses run
+  rw [runWith_fresh currentFacts currentFacts_fresh i]
+  simp only [Clauses.holds_cons, Clauses.holds_nil, Bool.and_true, Bool.and_eq_true]
+  have hsel : ∀ t, (pureT i t).selected = expected i t := by
+    intro t
+    unfold pureT
+    cases hk : i.kind with
+    | oci =>
+      simp only []
+      rw [(pureQ_selected _ _ _ _ _).1]
+      have := nameOf_selectQ i h t
+      simpa [mkQuery, hk] using this
+    | blob =>
+      simp only []
+      rw [(pureQ_selected _ _ _ _ _).1]
+      have := nameOf_selectQ i h t
+      simpa [mkQuery, hk] using this
+  have hWF := h
+  unfold WF at hWF
+  refine ⟨?_, ?_, ?_, ?_, ?_, ?_⟩
+  · -- selected = expected
+    rw [forall₂_map]
+    apply List.all_eq_true.2
+    intro t _
+    rw [hsel t]
+    exact beq_self_eq_true _
+  · -- refused reference selects nothing
+    apply List.all_eq_true.2
+    intro r hr
+    obtain ⟨t, _, rfl⟩ := List.mem_map.1 hr
+    unfold pureT
+    cases hk : i.kind with
+    | oci =>
+      simp only []
+      rw [(pureQ_selected _ _ _ _ _).1, (pureQ_selected _ _ _ _ _).2.1]
+      cases hp : artifactPath t with
+      | none => simp [selectQ, selectOCI, hp, nameOf]
+      | some p => simp
+    | blob =>
+      simp only []
+      rw [(pureQ_selected _ _ _ _ _).2.1]
+      rfl
+  · -- verifier entry points
+    rw [forall₂_map]
+    apply List.all_eq_true.2
+    intro t _
+    unfold pureT expectedVia
+    cases hk : i.kind with
+    | oci =>
+      simp only [hk, Bool.and_eq_true] at hWF
+      simp only []
+      rw [(pureQ_selected _ _ _ _ _).2.2.1, (pureQ_selected _ _ _ _ _).2.2.2.1, classOf_eq,
+        nameOf_selectOCI i.stmts hWF.1 t]
+      simp
+    | blob =>
+      simp only [hk, Bool.and_eq_true] at hWF
+      simp only []
+      rw [(pureQ_selected _ _ _ _ _).2.2.1, classOf_eq]
+      by_cases ht : t = []
+      · simp only [blobVerifyQuery, ht, ↓reduceIte, selectQ, nameOf_selectGlobal i.stmts hWF.2]
+        simp
+      · simp only [blobVerifyQuery, ht, ↓reduceIte, selectQ, nameOf_selectBlob i.stmts hWF.1 t]
+        simp
+  · -- the global statement
+    cases hk : i.kind with
+    | oci => simp
+    | blob =>
+      simp only [hk, Bool.and_eq_true] at hWF
+      simp only []
+      rw [(pureQ_selected _ _ _ _ _).1, (pureQ_selected _ _ _ _ _).2.2.1, classOf_eq]
+      simp only [selectQ, nameOf_selectGlobal i.stmts hWF.2]
+      simp
+  · -- copies equal the original
+    constructor
+    · apply List.all_eq_true.2
+      intro r hr
+      obtain ⟨t, _, rfl⟩ := List.mem_map.1 hr
+      unfold pureT
+      cases i.kind <;> exact (pureQ_selected _ _ _ _ _).2.2.2.2.1
+    · cases i.kind
+      · rfl
+      · simp only [Option.map_some, Option.getD_some]
+        exact (pureQ_selected _ _ _ _ _).2.2.2.2.1
+  · -- mutation does not affect later selections
+    constructor
+    · apply List.all_eq_true.2
+      intro r hr
+      obtain ⟨t, _, rfl⟩ := List.mem_map.1 hr
+      unfold pureT
+      cases i.kind <;> exact (pureQ_selected _ _ _ _ _).2.2.2.2.2
+    · cases i.kind
+      · rfl
+      · simp only [Option.map_some, Option.getD_some]
+        exact (pureQ_selected _ _ _ _ _).2.2.2.2.2
+
+/-! ### non-vacuity -/
+
+section examples
+
+def exStmt (n : String) (scopes : List String) : Stmt :=
+  { name := n.toList, scopes := scopes.map String.toList, isGlobal := false, level := "strict",
+    override := some [("revocation", "skip")], stores := ["ca:s".toList], identities := ["*".toList] }
+
+def exDoc : List Stmt := [exStmt "w" ["*"], exStmt "a" ["r.io/app", "r.io/app2"], exStmt "b" ["r.io/app/sub"]]
+
+def exInput : Input :=
+  { kind := .oci, stmts := exDoc,
+    queries := ["r.io/app@d".toList, "r.io/app/sub@d".toList, "r.io/ap@d".toList, "r.io/app:v1@d".toList, "r.io/app".toList] }
+
+example : WF exInput = true := by decide
+
+/-- exact scope, nested scope, near miss falls to the wildcard, tag refused, no digest refused -/
+example : (run exInput).queries.map (·.selected) =
+    [some "a".toList, some "b".toList, some "w".toList, none, none] := by decide
+
+example : (run exInput).queries.map (·.viaVerify) =
+    ["stmt:a".toList, "stmt:b".toList, "stmt:w".toList, noPolicy, noPolicy] := by decide
+
+example : Holds exInput (run exInput) = true := by decide
+
+/-- a wrong observation is rejected: the near miss "r.io/ap" must not select the statement scoped "r.io/app" -/
+example : Holds { exInput with queries := ["r.io/ap@d".toList] }
+    { queries := [{ selected := some "a".toList, refRejected := false, viaVerify := "stmt:a".toList,
+                    viaSkip := "stmt:a".toList, copyEqual := true, intact := true }],
+      globalSel := none } = false := by decide
+
+/-- without the wildcard statement the near miss is refused with the no-applicable-policy class -/
+example : (run { exInput with stmts := exDoc.tail, queries := ["r.io/ap@d".toList] }).queries.map (·.viaVerify) =
+    [noPolicy] := by decide
+
+/-- the model is sensitive to the clone facts: a `clone` that shares the TrustStores slice, or
+the Override map, lets a caller's write show up in the next selection -/
+example : ((runWith { currentFacts with oci := [("Name", "copied:t.Name"), ("SignatureVerification", "deep-clone"),
+      ("TrustedIdentities", "fresh-slice"), ("TrustStores", "copied:t.TrustStores"), ("RegistryScopes", "fresh-slice")] }
+    exInput).queries.map (·.intact)) = [false, false, false, true, true] := by decide
+
+example : ((runWith { currentFacts with makesMap := false } exInput).queries.map (·.intact)) =
+    [false, false, false, true, true] := by decide
+
+/-- blob: exact name, near misses, blank name; VerifyBlob without a name applies the global statement -/
+def exBlob : Input :=
+  { kind := .blob,
+    stmts := [{ exStmt "blob-policy" [] with isGlobal := true }, exStmt "blob-policy2" []],
+    queries := ["blob-policy2".toList, "blob-polic".toList, "Blob-policy".toList, " ".toList, [] ] }
+
+example : WF exBlob = true := by decide
+
+example : (run exBlob).queries.map (·.selected) = [some "blob-policy2".toList, none, none, none, none] := by decide
+
+example : (run exBlob).queries.map (·.viaVerify) =
+    ["stmt:blob-policy2".toList, noPolicy, noPolicy, noPolicy, "stmt:blob-policy".toList] := by decide
+
+example : (run exBlob).globalSel.map (·.selected) = some (some "blob-policy".toList) := by decide
+
+end examples
 
 end NotationModel.C08
